@@ -33,6 +33,12 @@ def cases(tier, seed, prep=None):
             for k in range(0, 170, 3 if q else 1):
                 out.append({"kind": "closesweep", "seed": seed * 7919 + 500 + b, "close_at": k, "who": who,
                             "ncalls": 1 + (k % 3), "mode": modes[(b + k) % len(modes)]})
+    # the same with dilate() called on both sides (Terminator then also waits for the Dilator)
+    for b in (range(1) if q else range(6)):
+        for who in "AB":
+            for k in range(0, 120, 2 if q else 1):
+                out.append({"kind": "closesweep", "seed": seed * 7919 + 700 + b, "close_at": k, "who": who,
+                            "ncalls": 1, "mode": "tcp", "dilate": True})
     # close with cuts around it
     for b in (range(2) if q else range(12)):
         for who in "AB":
@@ -84,6 +90,9 @@ def run_case(spec):
         sub["drop_at"], sub["who"] = spec["cut"]
     world, drv, sch, cfg = build_case(sub, max_msgs=6, max_size=100, adversary=(spec["seed"] % 2 == 0))
     rng = world.work_rng
+    if spec.get("dilate"):
+        drv.a.w.dilate()
+        drv.b.w.dilate()
     states_at_close = {}
     apps = [drv.a, drv.b]
 
